@@ -390,7 +390,13 @@ class H:
             # after the call: one value inside a task, an interval from a thread)
             # (a plain thread's time is the physical present; an unlocked
             # `clock.beats` there could see a routine that a clock thread runs)
-            rd = clock.elapsed_beats if src[0] == 'thread' else (lambda: clock.beats)
+            # (read under the library's lock: another plain thread changes the
+            # tempo of these clocks, and an unlocked conversion could combine the
+            # old base with the new tempo)
+            def _locked_elapsed_beats():
+                with self.main._main_lock:
+                    return clock.elapsed_beats()
+            rd = _locked_elapsed_beats if src[0] == 'thread' else (lambda: clock.beats)
             try:
                 rec['b0'] = rd()
             except Exception:
@@ -988,6 +994,11 @@ def run_stress(spec, acc):
     if starved:
         acc.mark_inconclusive(f'host starved: oversleep={h.watch.max_oversleep:.2f}s '
                               f'step={h.watch.max_step:.3f}s')
+    if h.watch.overloaded:
+        # more than two runnable processes per core: lateness is the host's, the
+        # other monitors (order, once-only, lock, times asked for) still decide
+        acc.count('stress_shards_on_an_overloaded_host')
+        starved = True
     # tempo clocks: lateness unknown in seconds; "due" approximated (see _due_phys)
     inst = analyze(h, acc, LATE_STRESS, end_phys, starved=starved, label=cfg['name'])
     for e in h.errors[:5]:
@@ -1244,7 +1255,7 @@ def park_case(h, inj, ck, who, code, line, racing, state, acc, tempo_n, nth=1):
     waited = time.time() - t0
     missing = [r for r in h.all_recs() if not r['decoy'] and not r['error']
                and r['nwakes'] < expected_wakes(r['plan'])]
-    starved = h.watch.max_oversleep > 0.5 or h.watch.max_step > 0.05
+    starved = h.watch.max_oversleep > 0.5 or h.watch.max_step > 0.05 or h.watch.overloaded
     kicked = None
     if missing and not starved:
         # does an unrelated later scheduling wake it up?  (diagnostic detail)
@@ -1379,9 +1390,14 @@ def run_clear(spec, acc):
                     {'clear': True, 'ret': None}, {'clear': True, 'raise': 'ValueError'},
                     {'clear': True, 'ret': 'x'}])], rng.choice(['tk', 'fn']), ('thread', 'c'))
                 t0 = time.time()
-                while not clr['nwakes'] and time.time() - t0 < 3:
+                while not clr['nwakes'] and time.time() - t0 < 20:
                     time.sleep(0.002)
                 time.sleep(0.01)
+                if not clr['nwakes']:
+                    # the clearing task has not run yet (starved host, or the clock
+                    # is gone - which the other rounds report): nothing to judge
+                    acc.count('clear_task_not_awakened_within_20s')
+                    continue
             else:
                 clock.clear()
             c1 = h.log.seq()
@@ -1411,7 +1427,7 @@ def run_clear(spec, acc):
                         {'round': rnd, 'task': _rec_repr(r), 'n_pending': len(before)})
                     break
             analyze(h, acc, LATE_PARK, main.elapsed_time(), cancelled=cancelled,
-                    starved=h.watch.max_oversleep > 0.5, label='clear')
+                    starved=h.watch.max_oversleep > 0.5 or h.watch.overloaded, label='clear')
             acc.count('clear_cases')
             acc.count('cleared_tasks', len(before))
             acc.case(h64((ck, n, rnd)), nontrivial=True)
@@ -1466,7 +1482,7 @@ def move_case(h, acc, clock, ck, rng, rnd):
     time.sleep(0.45 * (2.0 if ck == 'TempoClock' else 1.0) + 0.7)
     z = h.do_sched(clock, 'rel', 0.02, single, 'tk', ('thread', 'mv'))
     time.sleep(0.75)
-    starved = h.watch.max_oversleep > 0.25 or h.watch.max_step > 0.05
+    starved = h.watch.max_oversleep > 0.25 or h.watch.max_step > 0.05 or h.watch.overloaded
     analyze(h, acc, 0.6, h.main.elapsed_time(), starved=starved, label='move')
     acc.count('move_cases')
     acc.count('move_cases_head_moved_earlier', int(far))
@@ -1543,7 +1559,7 @@ def inf_return_case(h, acc, clock, ck, rng, rnd):
     time.sleep(0.6 if ck == 'TempoClock' else 0.45)
     acc.count('inf_return_cases')
     acc.case(h64(('inf-return', ck, kind, len(plan))), nontrivial=True)
-    starved = h.watch.max_oversleep > 0.25 or h.watch.max_step > 0.05
+    starved = h.watch.max_oversleep > 0.25 or h.watch.max_step > 0.05 or h.watch.overloaded
     if a['nwakes'] > len(plan):
         acc.violation(f'C08/woken-too-often/{ck}/after-returning-inf',
                       {'task': _rec_repr(a), 'wakes': a['nwakes']})
@@ -1854,7 +1870,7 @@ def tempo_hammer_case(h, acc, rng, vid):
     stop[0] = True
     th.join(2)
     time.sleep(3.0)     # slowest tempo 2: 4.7 beats / 2 = 2.4 s in total
-    starved = h.watch.max_oversleep > 0.5 or h.watch.max_step > 0.05
+    starved = h.watch.max_oversleep > 0.5 or h.watch.max_step > 0.05 or h.watch.overloaded
     analyze(h, acc, LATE_PARK, h.main.elapsed_time(), starved=starved, label='tempo-hammer')
     acc.count('tempo_hammer_cases')
     acc.count('tempo_changes_from_plain_thread', changes[0])
